@@ -141,19 +141,21 @@ def check_optional_inputs(ctx, prog, rule="c01.optional"):
     optional - five of the shipped projects have no KyG file.  In collect_hulc_data the result of find_kyg / find_tbl (an Option of a path) may be passed on
     or defaulted, never turned into an error or unwrapped: that would make `--use-extra` fail on every project without the file."""
     f = prog.find("hulc2model::collect_hulc_data")
-    sc = Scope(prog, f)
     n = 0
-    for b, t in f.body.calls():
-        nm = short_callee(callee_name(t) or "")
-        if nm not in ("ok_or", "ok_or_else", "expect", "unwrap", "context", "with_context") or not t["args"]:
-            continue
-        src = show(strip(sc.operand(t["args"][0])))
-        for what in ("find_kyg", "find_tbl"):
-            if what in src and "@Continue" in src or (what in src and "branch(" in src):
-                n += 1
-                ctx.violation(rule, "%s|%s" % (rule, what), "the optional path found by %s is turned into an error / unwrapped (%s): a project without that file no longer "
-                              "converts with --use-extra (five shipped projects have no KyGananciasSolares.txt)" % (what, nm), f.loc(t.get("ln")))
-    calls = [short_callee(callee_name(t) or "") for _, t in f.body.calls()]
+    calls = []
+    # the function itself, its closures and the private helpers of the module it calls (with their parameters bound at the call)
+    for sc in Scope(prog, f).all_scopes():
+        for b, t in sc.body.calls():
+            nm = short_callee(callee_name(t) or "")
+            calls.append(nm)
+            if nm not in ("ok_or", "ok_or_else", "expect", "unwrap", "context", "with_context") or not t["args"]:
+                continue
+            src = show(strip(sc.operand(t["args"][0])))
+            for what in ("find_kyg", "find_tbl"):
+                if what in src and ("@Continue" in src or "branch(" in src):
+                    n += 1
+                    ctx.violation(rule, "%s|%s" % (rule, what), "the optional path found by %s is turned into an error / unwrapped (%s): a project without that file no longer "
+                                  "converts with --use-extra (five shipped projects have no KyGananciasSolares.txt)" % (what, nm), sc.fn.loc(t.get("ln")))
     ctx.require("find_kyg" in calls and "find_tbl" in calls, "collect_hulc_data no longer looks for the auxiliary files with find_kyg / find_tbl: not a shape this rule reads")
     if n == 0:
         ctx.ok(rule, rule + "|auxiliary-files", "the KyG and tbl paths stay optional (no ok_or / unwrap on what find_kyg / find_tbl return)", f.loc())
